@@ -3,8 +3,8 @@ import itertools, random
 from .. import core, hist, world as W
 from .c01 import fix_disagreements
 
-MODULES = ['DsdVerif.Props.C11', 'DsdVerif.Props.PyIdent2', 'DsdVerif.Props.PySetObjects']
-GEN_FILES = ['PyIdentifiers2', 'PySetObjects']
+MODULES = ['DsdVerif.Props.C11', 'DsdVerif.Props.PyIdent2', 'DsdVerif.Props.PySetObjects', 'DsdVerif.Props.PyStrings']
+GEN_FILES = ['PyIdentifiers2', 'PySetObjects', 'PyStrings']
 THEOREM_NAMES = ['sortBy_perm', 'sortBy_sorted', 'sortBy_perm_invariant', 'macro_perm_invariant', 'macro_canon_spec', 'macro_injective', 'reaction_perm_invariant', 'reaction_lists_sorted', 'reaction_canon_iff']
 THEOREMS = ['Dsd.C11.' + t for t in THEOREM_NAMES] + ['Dsd.C11.macroRequestFull_eq', 'Dsd.C11.reactionRequestFull_eq'] + \
     ['Dsd.PyIdent2.' + t for t in (
@@ -18,6 +18,8 @@ THEOREMS = ['Dsd.C11.' + t for t in THEOREM_NAMES] + ['Dsd.C11.macroRequestFull_
         # a constructor that stored the CALLER's list without a copy is refused by the translator (the defect repaired in 26b6d05)
         'py_MacrostateS_init_eq', 'py_MacrostateS_views', 'py_macro_members', 'py_macro_stop_iff', 'py_macro_object', 'py_ReactionS_init_eq',
         'py_ReactionS_views', 'py_reaction_lists_sorted', 'py_reaction_object', 'py_setobjects_examples')]
+# ReactionS.reaction_string / __str__ as written in the source: members in the stored canonical order, a zero or missing rate omitted
+THEOREMS += ['Dsd.PyStrings.' + t for t in ['py_reaction_string_eq', 'py_reaction_string_no_rate', 'py_reaction_string_rate', 'py_reaction_str', 'py_reaction_name_and_string_agree', 'name_is_not_reaction_string']]
 ASSUMPTIONS = [
     'MacrostateS.identifiers / ReactionS.identifiers are hand-modelled (Model/Objects.lean: macroRequest, reactionRequest; sorted() is a '
     'stable insertion sort by canonical form); members are (name, canonical form) of live singleton complexes or macrostates',
@@ -265,6 +267,8 @@ def run(res, proof):
     core.run_stream(source_derived_pyident2, res, proof)
     from .pysetobj_stream import source_derived_pysetobj
     core.run_stream(source_derived_pysetobj, res, proof)
+    from .pystrings_stream import source_derived_pystrings
+    core.run_stream(source_derived_pystrings, res, proof)
     res.sample(lines[:12])
 
 
